@@ -11,6 +11,8 @@ from .. import domains as D
 from .. import etrace
 
 STV_RULES = ("STV", "IRV", "SequentialRCV")
+RANKING_ALL = ("STV", "IRV", "SequentialRCV", "Plurality", "SNTV", "Borda", "TopTwo", "Alaska", "DominatingSets", "CondoBorda", "RandomDictator",
+               "BoostedRandomDictator", "PluralityVeto")
 
 # ----------------------------------------------------------------------------- role 1
 MC_INVARIANTS = ["MTypeOK", "MPartition", "MBounded", "MErrorDiscipline", "MConservation", "MTiebreaks", "MDPC",
@@ -303,7 +305,8 @@ ALL_MC_INV = MC_INVARIANTS + ["MProbSum"]
 ALL_MC_PROPS = MC_PROPS + ["MRandomOnlyWithTiebreak"]
 
 
-def standard_run(pid, tier, seed, replay, mc_runs, corpus_fn, nontrivial, rule_text, extra=None, monitors=etrace.ALL_MONITORS, role3=None):
+def standard_run(pid, tier, seed, replay, mc_runs, corpus_fn, nontrivial, rule_text, extra=None, monitors=etrace.ALL_MONITORS, role3=None,
+                 repo_test_rules=None):
     """mc_runs: list of dicts(family, cands, max_ballots, max_w, with_half) per tier key"""
     res = Result(pid, tier, seed)
     scratch(pid)
@@ -322,6 +325,14 @@ def standard_run(pid, tier, seed, replay, mc_runs, corpus_fn, nontrivial, rule_t
     res.evaluations = len(inputs)
     res.notes["inputs"] = len(inputs)
     traces = record_corpus(inputs)
+    if repo_test_rules and not replay:
+        # the repository's own election tests, run on the tree with the recorder plugin: every election they construct is validated too
+        from .. import repo_tests
+        rt, info = repo_tests.record_repo_tests(os.path.join(OUT, pid, "repo_tests"), tier)
+        rt = [t for t in rt if t["cfg"]["rule"] in repo_test_rules]
+        info["traces_used"] = len(rt)
+        res.notes["repo_test_traces"] = info
+        traces += rt
     res.notes["explored_inputs"] = len({json.dumps(t["_inp"], sort_keys=True) for t in traces if t["_info"].get("explored")})
     verdicts, byid = judge(res, pid, traces, os.path.join(OUT, pid, "traces"), monitors=monitors, nontrivial=nontrivial)
     if extra:
